@@ -61,7 +61,7 @@ func (w *World) guardedCall(api string, f func()) {
 				abortChild = true
 				return
 			}
-			if time.Since(wall) > 90*time.Second {
+			if time.Since(wall) > 25*time.Second {
 				w.incon = "API call blocked without consuming CPU: " + api
 				abortChild = true
 				return
@@ -474,7 +474,9 @@ func runC19(k int, rng *Rng) CaseResult {
 		cfg.Async = 1
 	}
 	clockNewCase(clockModeFor(cfg))
-	installHooks(stdHooks())
+	lockmonReset(true) // a lock leaked by an error path is a hang waiting to happen
+	installHooks(lockHooks())
+	defer lockmonReset(false)
 	w := NewWorld("C19", rng, cfg, caseDir(k, "c19"))
 	defer w.Cleanup()
 	if !w.OpenCreate() {
@@ -563,7 +565,9 @@ func runC19Args(k int, rng *Rng) CaseResult {
 		cfg.Async = 1
 	}
 	clockNewCase(clockModeFor(cfg))
-	installHooks(stdHooks())
+	lockmonReset(true)
+	installHooks(lockHooks())
+	defer lockmonReset(false)
 	w := NewWorld("C19", rng, cfg, caseDir(k, "c19a"))
 	w.storeWant = true
 	defer w.Cleanup()
